@@ -136,8 +136,14 @@ def guard_table(ctx) -> None:
     # more rows than letters
     r26 = any(only(t, lambda a: cmp_is(a, Cmp(P("rows") - Poly.const(26), ">"), Cmp(P("rows") - Poly.const(27), ">="))) and c == "ValueError" for t, n, c in terms)
     v26 = any(only(t, lambda a: cmp_is(a, Cmp(P("virtual_rows") - Poly.const(26), ">"), Cmp(P("virtual_rows") - Poly.const(27), ">=")), allow=(lambda a: _is_not_none(a, "virtual_rows"),)) and c == "ValueError" for t, n, c in terms)
-    reqs.append(("rows-exceed-letters", "more rows than row letters raises ValueError", r26, "no guard rejects every labware with rows > 26: the alphabet slice silently truncates the IDs (wells 26xC vs volumes RxC)"))
-    reqs.append(("virtual-rows-exceed-letters", "more virtual rows than row letters raises ValueError", v26, "no guard rejects virtual_rows > 26: the alphabet slice silently truncates"))
+    # (a guard that also turns away exactly 26 rows refuses a labware that the 26 row letters can represent)
+    r26_strict = any(only(t, lambda a: cmp_is(a, Cmp(P("rows") - Poly.const(26), ">="), Cmp(P("rows") - Poly.const(25), ">"))) and c == "ValueError" for t, n, c in terms)
+    v26_strict = any(only(t, lambda a: cmp_is(a, Cmp(P("virtual_rows") - Poly.const(26), ">="), Cmp(P("virtual_rows") - Poly.const(25), ">")), allow=(lambda a: _is_not_none(a, "virtual_rows"),)) and c == "ValueError" for t, n, c in terms)
+    reqs.append(("rows-exceed-letters", "more rows than row letters raises ValueError", r26,
+                 "the guard on the number of rows is `rows >= 26`: a labware with exactly 26 rows (A..Z) is refused" if r26_strict else
+                 "no guard rejects every labware with rows > 26: the alphabet slice silently truncates the IDs (wells 26xC vs volumes RxC)"))
+    reqs.append(("virtual-rows-exceed-letters", "more virtual rows than row letters raises ValueError", v26,
+                 "the guard is `virtual_rows >= 26`: a trough with exactly 26 virtual rows (A..Z) is refused" if v26_strict else "no guard rejects virtual_rows > 26: the alphabet slice silently truncates"))
     # virtual rows only with rows == 1
     vr1 = any(only(t, lambda a: _truthy(a, "virtual_rows"), lambda a: cmp_is(a, Cmp(P("rows") - Poly.const(1), "!="))) and c == "ValueError" for t, n, c in terms)
     reqs.append(("virtual-rows-need-one-row", "virtual rows on multi-row labware raise ValueError", vr1, "virtual_rows together with rows != 1 is not rejected with ValueError"))
@@ -227,6 +233,8 @@ def parallel(ctx) -> None:
         return
     b = fv.bind_args(calls[0]) or {}
     rw = b.get("real_wells")
+    if isinstance(rw, ast.Name) and rw.id not in f.params:
+        rw = fv.def_expr(rw, calls[0].node)[0]  # the selection held in a (single-definition) local
     ok = False
     if isinstance(rw, ast.IfExp):
         core = rw.test
@@ -376,6 +384,8 @@ def trough_args(ctx) -> None:
         ctrl = fv.controlling(n.id, skip_raising=True)
         if is_rep and len(ctrl) == 1:
             t = fv.cfg.nodes[ctrl[0][0]].ast
+            if isinstance(t, ast.Name):
+                t = fv.def_expr(t, ctrl[0][0])[0]  # the test held in a (single-definition) local
             if isinstance(t, ast.Call) and call_fname(t) == "isinstance" and is_name(t.args[0], "initial_volumes") and ctrl[0][1]:
                 types = {show(x) for x in (t.args[1].elts if isinstance(t.args[1], ast.Tuple) else [t.args[1]])}
                 ok_bc = types <= {"int", "float", "numbers.Number", "numbers.Real", "np.integer", "np.floating", "numpy.integer", "numpy.floating", "np.number", "numpy.number"}
